@@ -2126,6 +2126,10 @@ func runMw(ctx *Ctx) {
 	quietMwLogs()
 	mwHdrMode = mwProbeHdrMode()
 	ctx.Res.Count(fmt.Sprintf("mw.header-mode=%d", mwHdrMode))
+	if !mwRaceChild && len(ctx.Replay) == 0 {
+		// the model of the code at HEAD (`runImpl`, theorem C19.header_go) must have the mode the real code probes as
+		ctx.Add("mw.hdrmode go", fmt.Sprintf("ok %d", mwHdrMode), true, "C19")
+	}
 	if mwRaceChild {
 		mwRunRaceChild(ctx)
 		return
